@@ -1,5 +1,639 @@
-"""Malformed-request recipes of C19 for engine B (filled in below)."""
+"""Malformed-request recipes of C19 for engine B: only violations that C19's statement
+names (dimensionally inconsistent operands, bad mode arguments, invalid permutations,
+element-count-changing reshapes, inconsistent constructor components, bad algorithm
+options).  Every recipe carries a ``malformed`` predicate that re-establishes, from the
+actual operands at execution time, that the request really violates the precondition."""
+
+from __future__ import annotations
+
+from typing import Any, Dict
+
+import numpy as np
+
+from .catalog_b import rand_array, rnd
 
 
 def register(cat):
-    pass
+    ttb = cat.ttb
+    bad = cat.badop
+
+    def shp(o):
+        return tuple(int(s) for s in o.shape)
+
+    def other_shape(c, kinds, shape, same_order=None):
+        def pred(o):
+            s = shp(o)
+            if s == tuple(shape):
+                return False
+            if same_order is True and len(s) != len(shape):
+                return False
+            return True
+
+        return c.pick(kinds, pred)
+
+    ALL = ("T", "S", "K", "TT")
+
+    # ---------------------------------------------------------------- inner products
+    for kind in ("T", "S", "K", "TT", "SUM"):
+        def gen_ip(c, r, kind=kind):
+            o = other_shape(c, ("T", "S", "K") if kind == "SUM" else ALL, shp(c.obj(r)))
+            return None if o is None else {"operands": [r, o]}
+
+        bad(kind + ".innerprod_shape", kind, gen_ip, lambda eng, ops, st: ops[0].innerprod(ops[1]), lambda ops, st: shp(ops[0]) != shp(ops[1]))
+
+    # ------------------------------------------------- element-wise on sparse / Kruskal / sum
+    def gen_binop(c, r, others):
+        o = other_shape(c, others, shp(c.obj(r)))
+        return None if o is None else {"operands": [r, o], "which": c.g.choice(["add", "sub", "mul", "eq", "le", "and", "or", "xor"])}
+
+    def run_sbin(eng, ops, st):
+        a, b = ops
+        return {
+            "add": lambda: a + b,
+            "sub": lambda: a - b,
+            "mul": lambda: a * b,
+            "eq": lambda: a == b,
+            "le": lambda: a <= b,
+            "and": lambda: a.logical_and(b),
+            "or": lambda: a.logical_or(b),
+            "xor": lambda: a.logical_xor(b),
+        }[st["which"]]()
+
+    def not_broadcastable(ops, st):
+        a, b = shp(ops[0]), shp(ops[1])
+        return a != b
+
+    bad("S.elementwise_shape", "S", lambda c, r: gen_binop(c, r, ("S", "T")), run_sbin, not_broadcastable, known=None)
+
+    def gen_kadd(c, r):
+        o = other_shape(c, "K", shp(c.obj(r)))
+        return None if o is None else {"operands": [r, o], "which": c.g.choice(["add", "sub"])}
+
+    bad("K.add_shape", "K", gen_kadd, run_sbin, not_broadcastable)
+    bad("K.mask_shape", "K", lambda c, r: (lambda o: None if o is None else {"operands": [r, o]})(other_shape(c, ("T", "S"), shp(c.obj(r)))), lambda eng, ops, st: ops[0].mask(ops[1]), lambda ops, st: any(a > b for a, b in zip(shp(ops[1]), shp(ops[0]))) or len(shp(ops[0])) != len(shp(ops[1])))
+    bad("K.score_shape", "K", lambda c, r: (lambda o: None if o is None else {"operands": [r, o]})(other_shape(c, "K", shp(c.obj(r)))), lambda eng, ops, st: ops[0].score(ops[1]), not_broadcastable)
+    bad("SUM.add_shape", "SUM", lambda c, r: (lambda o: None if o is None else {"operands": [r, o]})(other_shape(c, ALL, shp(c.obj(r)))), lambda eng, ops, st: ops[0] + ops[1], not_broadcastable)
+    bad("S.mask_shape", "S", lambda c, r: (lambda o: None if o is None else {"operands": [r, o]})(other_shape(c, "S", shp(c.obj(r)))), lambda eng, ops, st: ops[0].mask(ops[1]), lambda ops, st: any(a > b for a, b in zip(shp(ops[1]), shp(ops[0]))) or len(shp(ops[0])) != len(shp(ops[1])))
+
+    # ------------------------------------------------------------------ permutations
+    def gen_perm(c, r):
+        n = c.obj(r).ndims
+        kind = c.g.choice(["repeat", "short", "long", "oor"])
+        if kind == "repeat":
+            if n < 2:
+                return None
+            p = list(range(n))
+            p[1] = p[0]
+        elif kind == "short":
+            if n < 2:
+                return None
+            p = list(range(n - 1))
+        elif kind == "long":
+            p = list(range(n + 1))
+        else:
+            p = list(range(n))
+            p[-1] = n
+        return {"operands": [r], "perm": p}
+
+    def bad_perm(ops, st):
+        n = ops[0].ndims
+        return sorted(st["perm"]) != list(range(n))
+
+    for kind in ("T", "S", "K", "TT"):
+        bad(
+            kind + ".permute_invalid",
+            kind,
+            gen_perm,
+            lambda eng, ops, st: ops[0].permute(np.array(st["perm"])),
+            bad_perm,
+            known=(lambda ops, st: "tensor_permute_order_all_ones" if all(p == 1 for p in st["perm"]) else None) if kind == "T" else None,
+        )
+
+    # ---------------------------------------------------------------------- reshapes
+    def gen_reshape(c, r):
+        size = int(np.prod(shp(c.obj(r))))
+        return {"operands": [r], "shape": c.g.choice([[size + 1], [size, 2], [max(1, size - 1)], [2, size + 1]])}
+
+    def bad_reshape(ops, st):
+        return int(np.prod(st["shape"])) != int(np.prod(shp(ops[0])))
+
+    bad("T.reshape_count", "T", gen_reshape, lambda eng, ops, st: ops[0].reshape(tuple(st["shape"])), bad_reshape)
+    bad("S.reshape_count", "S", gen_reshape, lambda eng, ops, st: ops[0].reshape(tuple(st["shape"])), bad_reshape)
+
+    # --------------------------------------------------- vectors / matrices / factor lists
+    def gen_ttv_len(c, r):
+        sh = shp(c.obj(r))
+        d = c.g.randrange(len(sh))
+        ln = sh[d] + c.g.choice([-1, 1, 2])
+        if ln < 1:
+            ln = sh[d] + 1
+        return {"operands": [r, c.fresh(rand_array(c.g, (ln,)))], "dim": d}
+
+    def bad_ttv_len(ops, st):
+        return ops[1].shape[0] != shp(ops[0])[st["dim"]]
+
+    for kind in ("T", "S", "K", "TT", "SUM"):
+        bad(kind + ".ttv_length", kind, gen_ttv_len, lambda eng, ops, st: ops[0].ttv(ops[1], st["dim"]), bad_ttv_len)
+
+    def gen_ttv_count(c, r):
+        sh = shp(c.obj(r))
+        n = len(sh)
+        k = n + 1 if c.g.random() < 0.5 or n < 2 else n - 1
+        vs = [c.fresh(rand_array(c.g, (sh[i % n],))) for i in range(k)]
+        return {"operands": [r] + vs}
+
+    for kind in ("T", "S", "K", "TT"):
+        bad(kind + ".ttv_count", kind, gen_ttv_count, lambda eng, ops, st: ops[0].ttv(list(ops[1:])), lambda ops, st: len(ops) - 1 != ops[0].ndims)
+
+    def gen_ttv_dims(c, r):
+        sh = shp(c.obj(r))
+        n = len(sh)
+        kind = c.g.choice(["oor", "negative", "repeated", "both"])
+        if kind == "oor":
+            return {"operands": [r, c.fresh(rand_array(c.g, (sh[0],)))], "dims": [n + c.g.randint(0, 1)], "exclude": None}
+        if kind == "negative":
+            return {"operands": [r, c.fresh(rand_array(c.g, (sh[-1],)))], "dims": [-1 - c.g.randint(0, 1) - n], "exclude": None}
+        if kind == "repeated":
+            return {"operands": [r, c.fresh(rand_array(c.g, (sh[0],))), c.fresh(rand_array(c.g, (sh[0],)))], "dims": [0, 0], "exclude": None}
+        return {"operands": [r, c.fresh(rand_array(c.g, (sh[0],)))], "dims": [0], "exclude": [n - 1]}
+
+    def run_ttv_dims(eng, ops, st):
+        vs = list(ops[1:])
+        if st["exclude"] is not None:
+            return ops[0].ttv(vs if len(vs) > 1 else vs[0], dims=np.array(st["dims"]), exclude_dims=np.array(st["exclude"]))
+        return ops[0].ttv(vs if len(vs) > 1 else vs[0], dims=np.array(st["dims"]))
+
+    def bad_dims(ops, st):
+        n = ops[0].ndims
+        d = st["dims"]
+        return st["exclude"] is not None or any(x >= n or x < -n for x in d) or len(set(d)) != len(d) or any(x < -n for x in d)
+
+    bad("T.ttv_dims", "T", gen_ttv_dims, run_ttv_dims, bad_dims)
+    bad("S.ttv_dims", "S", gen_ttv_dims, run_ttv_dims, bad_dims, known=None)
+    bad("K.ttv_dims", "K", gen_ttv_dims, run_ttv_dims, bad_dims)
+
+    def gen_ttm_size(c, r):
+        sh = shp(c.obj(r))
+        d = c.g.randrange(len(sh))
+        cols = sh[d] + c.g.choice([1, 2])
+        return {"operands": [r, c.fresh(np.asfortranarray(rand_array(c.g, (2, cols))))], "dim": d}
+
+    for kind in ("T", "S", "TT"):
+        bad(kind + ".ttm_size", kind, gen_ttm_size, lambda eng, ops, st: ops[0].ttm(ops[1], st["dim"]), lambda ops, st: ops[1].shape[1] != shp(ops[0])[st["dim"]])
+
+    def gen_mttkrp(c, r):
+        sh = shp(c.obj(r))
+        n = len(sh)
+        if n < 2:
+            return None
+        kind = c.g.choice(["length", "columns", "rows"])
+        rk = 2
+        mats = [np.asfortranarray(rand_array(c.g, (s, rk))) for s in sh]
+        mode = c.g.randrange(n)
+        if kind == "length":
+            mats = mats[:-1] if c.g.random() < 0.5 else mats + [mats[0]]
+        elif kind == "columns":
+            j = c.g.choice([m for m in range(n) if m != mode])
+            mats[j] = np.asfortranarray(rand_array(c.g, (sh[j], rk + 1)))
+        else:
+            j = c.g.choice([m for m in range(n) if m != mode])
+            mats[j] = np.asfortranarray(rand_array(c.g, (sh[j] + 1, rk)))
+        return {"operands": [r] + [c.fresh(m) for m in mats], "n": mode}
+
+    def bad_mttkrp(ops, st):
+        sh = shp(ops[0])
+        mats = ops[1:]
+        if len(mats) != len(sh):
+            return True
+        mode = st["n"]
+        cols = {m.shape[1] for k, m in enumerate(mats) if k != mode}
+        if len(cols) > 1:
+            return True
+        return any(m.shape[0] != sh[k] for k, m in enumerate(mats) if k != mode)
+
+    for kind in ("T", "S", "K", "TT"):
+        bad(kind + ".mttkrp_factors", kind, gen_mttkrp, lambda eng, ops, st: ops[0].mttkrp(list(ops[1:]), st["n"]), bad_mttkrp)
+
+    def gen_scale(c, r):
+        sh = shp(c.obj(r))
+        d = c.g.randrange(len(sh))
+        return {"operands": [r, c.fresh(rand_array(c.g, (sh[d] + c.g.choice([1, 2]),)))], "dim": d}
+
+    bad("T.scale_size", "T", gen_scale, lambda eng, ops, st: ops[0].scale(ops[1], st["dim"]), lambda ops, st: ops[1].shape[0] != shp(ops[0])[st["dim"]])
+    bad("S.scale_size", "S", gen_scale, lambda eng, ops, st: ops[0].scale(ops[1], np.array([st["dim"]])), lambda ops, st: ops[1].shape[0] != shp(ops[0])[st["dim"]])
+
+    def gen_contract(c, r):
+        sh = shp(c.obj(r))
+        pairs = [(i, j) for i in range(len(sh)) for j in range(len(sh)) if i != j and sh[i] != sh[j]]
+        if pairs and c.g.random() < 0.7:
+            i, j = c.g.choice(pairs)
+        else:
+            i = j = c.g.randrange(len(sh))
+        return {"operands": [r], "i": i, "j": j}
+
+    def bad_contract(ops, st):
+        sh = shp(ops[0])
+        return st["i"] == st["j"] or sh[st["i"]] != sh[st["j"]]
+
+    bad("T.contract_invalid", "T", gen_contract, lambda eng, ops, st: ops[0].contract(st["i"], st["j"]), bad_contract)
+    bad("S.contract_invalid", "S", gen_contract, lambda eng, ops, st: ops[0].contract(st["i"], st["j"]), bad_contract)
+
+    def gen_ttt(c, r):
+        o = c.pick("T")
+        if o is None:
+            return None
+        a, b = shp(c.obj(r)), shp(c.obj(o))
+        pairs = [(i, j) for i in range(len(a)) for j in range(len(b)) if a[i] != b[j]]
+        if not pairs:
+            return None
+        i, j = c.g.choice(pairs)
+        return {"operands": [r, o], "sd": [i], "od": [j]}
+
+    bad("T.ttt_dims", "T", gen_ttt, lambda eng, ops, st: ops[0].ttt(ops[1], np.array(st["sd"]), np.array(st["od"])), lambda ops, st: shp(ops[0])[st["sd"][0]] != shp(ops[1])[st["od"][0]])
+
+    def gen_to_tenmat(c, r):
+        n = c.obj(r).ndims
+        if n < 2:
+            return None
+        kind = c.g.choice(["missing", "repeated", "oor"])
+        if kind == "missing":
+            return {"operands": [r], "rdims": [0], "cdims": list(range(2, n))}
+        if kind == "repeated":
+            return {"operands": [r], "rdims": [0], "cdims": list(range(0, n))}
+        return {"operands": [r], "rdims": [n], "cdims": list(range(0, n))}
+
+    def bad_partition(ops, st):
+        n = ops[0].ndims
+        return sorted(st["rdims"] + st["cdims"]) != list(range(n))
+
+    bad("T.to_tenmat_dims", "T", gen_to_tenmat, lambda eng, ops, st: ops[0].to_tenmat(rdims=np.array(st["rdims"], dtype=int), cdims=np.array(st["cdims"], dtype=int)), bad_partition)
+    bad("S.to_sptenmat_dims", "S", gen_to_tenmat, lambda eng, ops, st: ops[0].to_sptenmat(rdims=np.array(st["rdims"], dtype=int), cdims=np.array(st["cdims"], dtype=int)), bad_partition)
+
+    def gen_extract(c, r):
+        sh = shp(c.obj(r))
+        rows = [[c.g.randrange(s) for s in sh] for _ in range(2)]
+        kind = c.g.choice(["oor", "width"])
+        if kind == "oor":
+            d = c.g.randrange(len(sh))
+            rows[0][d] = sh[d] + c.g.randint(0, 1)
+        else:
+            rows = [row + [0] for row in rows]
+        return {"operands": [r, c.fresh(np.array(rows, dtype=int))]}
+
+    def bad_extract(ops, st):
+        sh = shp(ops[0])
+        s = ops[1]
+        return s.shape[1] != len(sh) or bool((s >= np.array(sh)).any()) or bool((s < 0).any())
+
+    bad("S.extract_invalid", "S", gen_extract, lambda eng, ops, st: ops[0].extract(ops[1]), bad_extract)
+
+    # -------------------------------------------------------------------- constructors
+    def gen_tensor_ctor(c, r):
+        shape = c.g.choice(c.heap_families())
+        size = int(np.prod(shape))
+        return {"operands": [c.fresh(rand_array(c.g, (size + c.g.choice([1, 2, -1]),)))], "shape": list(shape)}
+
+    bad("tensor_ctor_size", None, gen_tensor_ctor, lambda eng, ops, st: ttb.tensor(ops[0], tuple(st["shape"])), lambda ops, st: ops[0].size != int(np.prod(st["shape"])))
+
+    def gen_sptensor_ctor(c, r):
+        shape = list(c.g.choice(c.heap_families()))
+        subs = np.array([[c.g.randrange(s) for s in shape] for _ in range(2)], dtype=int)
+        d = c.g.randrange(len(shape))
+        subs[0, d] = shape[d] + c.g.randint(0, 1)
+        vals = np.array([[rnd(c.g)], [rnd(c.g)]])
+        return {"operands": [c.fresh(subs), c.fresh(vals)], "shape": shape}
+
+    bad("sptensor_ctor_subs_beyond_shape", None, gen_sptensor_ctor, lambda eng, ops, st: ttb.sptensor(ops[0], ops[1], tuple(st["shape"])), lambda ops, st: bool((ops[0] >= np.array(st["shape"])).any()))
+
+    def gen_aggregator(c, r):
+        shape = list(c.g.choice(c.heap_families()))
+        kind = c.g.choice(["count", "width", "beyond"])
+        n = len(shape)
+        subs = np.array([[c.g.randrange(s) for s in shape] for _ in range(3)], dtype=int)
+        vals = np.array([[rnd(c.g)] for _ in range(3)])
+        if kind == "count":
+            vals = vals[:2]
+        elif kind == "width":
+            subs = np.hstack([subs, np.zeros((3, 1), dtype=int)])
+        else:
+            subs[1, 0] = shape[0] + 1
+        return {"operands": [c.fresh(subs), c.fresh(vals)], "shape": shape}
+
+    def bad_aggregator(ops, st):
+        s, v = ops
+        sh = st["shape"]
+        return s.shape[0] != v.shape[0] or s.shape[1] != len(sh) or bool((s >= np.array(sh + [10**9] * (s.shape[1] - len(sh)))[: s.shape[1]]).any())
+
+    bad("sptensor_from_aggregator_inconsistent", None, gen_aggregator, lambda eng, ops, st: ttb.sptensor.from_aggregator(ops[0], ops[1], tuple(st["shape"])), bad_aggregator)
+
+    def gen_ktensor_ctor(c, r):
+        shape = c.g.choice(c.heap_families())
+        kind = c.g.choice(["columns", "weights"])
+        fs = [np.asfortranarray(rand_array(c.g, (s, 2))) for s in shape]
+        w = np.array([1.0, 2.0])
+        if kind == "columns":
+            fs[-1] = np.asfortranarray(rand_array(c.g, (shape[-1], 3)))
+        else:
+            w = np.array([1.0, 2.0, 3.0])
+        return {"operands": [c.fresh(f) for f in fs] + [c.fresh(w)]}
+
+    def bad_ktensor(ops, st):
+        cols = {f.shape[1] for f in ops[:-1]}
+        return len(cols) > 1 or ops[-1].shape[0] not in cols
+
+    bad("ktensor_ctor_inconsistent", None, gen_ktensor_ctor, lambda eng, ops, st: ttb.ktensor(list(ops[:-1]), ops[-1]), bad_ktensor)
+
+    def gen_ttensor_ctor(c, r):
+        core = c.pick("T")
+        if core is None:
+            return None
+        cs = shp(c.obj(core))
+        kind = c.g.choice(["columns", "count"])
+        fs = [np.asfortranarray(rand_array(c.g, (3, rk))) for rk in cs]
+        if kind == "columns":
+            j = c.g.randrange(len(cs))
+            fs[j] = np.asfortranarray(rand_array(c.g, (3, cs[j] + 1)))
+        else:
+            fs = fs[:-1] if len(fs) > 1 else fs + [fs[0]]
+        return {"operands": [core] + [c.fresh(f) for f in fs]}
+
+    def bad_ttensor(ops, st):
+        cs = shp(ops[0])
+        fs = ops[1:]
+        return len(fs) != len(cs) or any(f.shape[1] != k for f, k in zip(fs, cs))
+
+    bad("ttensor_ctor_inconsistent", None, gen_ttensor_ctor, lambda eng, ops, st: ttb.ttensor(ops[0], list(ops[1:])), bad_ttensor)
+
+    def gen_sumtensor_ctor(c, r):
+        a = c.pick(ALL)
+        if a is None:
+            return None
+        b = other_shape(c, ALL, shp(c.obj(a)))
+        return None if b is None else {"operands": [a, b]}
+
+    bad("sumtensor_ctor_shapes", None, gen_sumtensor_ctor, lambda eng, ops, st: ttb.sumtensor(list(ops)), lambda ops, st: shp(ops[0]) != shp(ops[1]))
+
+    def gen_tenmat_ctor(c, r):
+        shape = list(c.g.choice(c.heap_families()))
+        n = len(shape)
+        kind = c.g.choice(["size", "partition"])
+        rd, cd = [0], list(range(1, n))
+        rows, cols = shape[0], int(np.prod(shape[1:]))
+        if kind == "size":
+            data = rand_array(c.g, (rows, cols + 1))
+        else:
+            data = rand_array(c.g, (rows, cols))
+            cd = list(range(0, n - 1)) if n > 2 else [0]
+        return {"operands": [c.fresh(np.asfortranarray(data))], "rdims": rd, "cdims": cd, "tshape": shape}
+
+    def bad_tenmat(ops, st):
+        sh = st["tshape"]
+        part = sorted(st["rdims"] + st["cdims"]) == list(range(len(sh)))
+        return (not part) or ops[0].size != int(np.prod(sh))
+
+    bad("tenmat_ctor_inconsistent", None, gen_tenmat_ctor, lambda eng, ops, st: ttb.tenmat(ops[0], np.array(st["rdims"]), np.array(st["cdims"]), tuple(st["tshape"])), bad_tenmat)
+
+    def gen_sptenmat_ctor(c, r):
+        shape = list(c.g.choice(c.heap_families()))
+        n = len(shape)
+        kind = c.g.choice(["partition", "beyond", "count"])
+        rd, cd = [0], list(range(1, n))
+        rows, cols = shape[0], int(np.prod(shape[1:]))
+        subs = np.array([[0, 0], [rows - 1, cols - 1]], dtype=int)
+        vals = np.array([[1.5], [2.5]])
+        if kind == "partition":
+            cd = cd[:-1] if len(cd) > 1 else [0]
+        elif kind == "beyond":
+            subs[1, 0] = rows + 1
+        else:
+            vals = vals[:1]
+        return {"operands": [c.fresh(subs), c.fresh(vals)], "rdims": rd, "cdims": cd, "tshape": shape}
+
+    def bad_sptenmat(ops, st):
+        sh = st["tshape"]
+        if sorted(st["rdims"] + st["cdims"]) != list(range(len(sh))):
+            return True
+        rows = int(np.prod([sh[d] for d in st["rdims"]]))
+        cols = int(np.prod([sh[d] for d in st["cdims"]]))
+        return ops[0].shape[0] != ops[1].shape[0] or bool((ops[0] >= np.array([rows, cols])).any())
+
+    bad("sptenmat_ctor_inconsistent", None, gen_sptenmat_ctor, lambda eng, ops, st: ttb.sptenmat(ops[0], ops[1], np.array(st["rdims"]), np.array(st["cdims"]), tuple(st["tshape"])), bad_sptenmat)
+
+    # ---------------------------------------------------------------------- tenmat ops
+    def gen_tm_pair(c, r):
+        m = c.obj(r)
+        o = c.pick("TM", lambda x: tuple(x.shape) != tuple(m.shape))
+        return None if o is None else {"operands": [r, o], "which": c.g.choice(["add", "sub"])}
+
+    bad("TM.add_shape", "TM", gen_tm_pair, lambda eng, ops, st: (ops[0] + ops[1]) if st["which"] == "add" else (ops[0] - ops[1]), lambda ops, st: tuple(ops[0].shape) != tuple(ops[1].shape))
+
+    def gen_tm_mul(c, r):
+        m = c.obj(r)
+        o = c.pick("TM", lambda x: x.shape[0] != m.shape[1])
+        return None if o is None else {"operands": [r, o]}
+
+    bad("TM.mul_inner_dimension", "TM", gen_tm_mul, lambda eng, ops, st: ops[0] * ops[1], lambda ops, st: ops[0].shape[1] != ops[1].shape[0])
+
+    # ---------------------------------------------------------------- Kruskal specifics
+    bad("K.extract_out_of_range", "K", lambda c, r: {"operands": [r], "idx": c.obj(r).ncomponents + c.g.randint(0, 1)}, lambda eng, ops, st: ops[0].extract(st["idx"]), lambda ops, st: st["idx"] >= ops[0].ncomponents)
+    bad("K.arrange_permutation_length", "K", lambda c, r: {"operands": [r, c.fresh(np.arange(c.obj(r).ncomponents + 1, dtype=int))]}, lambda eng, ops, st: ops[0].arrange(permutation=ops[1]), lambda ops, st: ops[1].shape[0] != ops[0].ncomponents)
+    bad("K.arrange_both_arguments", "K", lambda c, r: {"operands": [r, c.fresh(np.arange(c.obj(r).ncomponents, dtype=int))]}, lambda eng, ops, st: ops[0].arrange(weight_factor=0, permutation=ops[1]), lambda ops, st: True)
+    bad("K.normalize_mode_out_of_range", "K", lambda c, r: {"operands": [r], "mode": c.obj(r).ndims + c.g.randint(0, 1)}, lambda eng, ops, st: ops[0].normalize(mode=st["mode"]), lambda ops, st: st["mode"] >= ops[0].ndims)
+    bad("K.redistribute_out_of_range", "K", lambda c, r: {"operands": [r], "mode": c.obj(r).ndims + c.g.randint(0, 1)}, lambda eng, ops, st: ops[0].redistribute(st["mode"]), lambda ops, st: st["mode"] >= ops[0].ndims)
+
+    def gen_update(c, r, surplus):
+        k = c.obj(r)
+        m = c.g.randrange(k.ndims)
+        need = k.shape[m] * k.ncomponents
+        if not surplus and need < 2:
+            return None
+        ln = need + c.g.randint(1, 2) if surplus else need - 1
+        return {"operands": [r, c.fresh(rand_array(c.g, (ln,)))], "mode": m}
+
+    bad("K.update_too_short", "K", lambda c, r: gen_update(c, r, False), lambda eng, ops, st: ops[0].update(st["mode"], ops[1]), lambda ops, st: ops[1].shape[0] < shp(ops[0])[st["mode"]] * ops[0].ncomponents)
+    bad("K.update_length", "K", lambda c, r: gen_update(c, r, True), lambda eng, ops, st: ops[0].update(st["mode"], ops[1]), lambda ops, st: ops[1].shape[0] > shp(ops[0])[st["mode"]] * ops[0].ncomponents, known="ktensor_update_surplus")
+
+    def gen_from_vector(c, r):
+        k = c.obj(r)
+        return {"operands": [r, c.fresh(rand_array(c.g, (2 * (sum(k.shape) + 1) + 1,)))]}
+
+    bad("K.from_vector_length", "K", gen_from_vector, lambda eng, ops, st: ttb.ktensor.from_vector(ops[1], tuple(ops[0].shape), True), lambda ops, st: (ops[1].shape[0] - 0) % (sum(shp(ops[0])) + 1) != 0)
+
+    # -------------------------------------------------------------------- module level
+    def gen_khatrirao(c, r):
+        kind = c.g.choice(["columns", "not_matrix"])
+        if kind == "columns":
+            return {"operands": [c.fresh(np.asfortranarray(rand_array(c.g, (2, 2)))), c.fresh(np.asfortranarray(rand_array(c.g, (3, 3))))]}
+        return {"operands": [c.fresh(np.asfortranarray(rand_array(c.g, (2, 2)))), c.fresh(rand_array(c.g, (2, 2, 2)))]}
+
+    bad("khatrirao_inconsistent", None, gen_khatrirao, lambda eng, ops, st: ttb.khatrirao(*ops), lambda ops, st: any(o.ndim != 2 for o in ops) or len({o.shape[1] for o in ops}) > 1)
+
+    def gen_sptenrand(c, r):
+        return {"operands": [], "shape": list(c.g.choice(c.heap_families())), "kind": c.g.choice(["both", "neither", "density_zero", "density_big"])}
+
+    def run_sptenrand(eng, ops, st):
+        sh = tuple(st["shape"])
+        k = st["kind"]
+        if k == "both":
+            return ttb.sptenrand(sh, density=0.5, nonzeros=2)
+        if k == "neither":
+            return ttb.sptenrand(sh)
+        if k == "density_zero":
+            return ttb.sptenrand(sh, density=0.0)
+        return ttb.sptenrand(sh, density=1.5)
+
+    bad("sptenrand_arguments", None, gen_sptenrand, run_sptenrand, lambda ops, st: True)
+
+    # --------------------------------------------------------------------- algorithms
+    def gen_alg(c, r, names):
+        x = c.obj(r)
+        sh = shp(x)
+        if len(sh) < 2:
+            return None
+        kind = c.g.choice(names)
+        st: Dict[str, Any] = {"operands": [r], "kind": kind}
+        if kind in ("guess_shape", "guess_rank"):
+            k = c.pick("K", (lambda o: shp(o) != sh) if kind == "guess_shape" else (lambda o: shp(o) == sh))
+            if k is None:
+                return None
+            st["operands"] = [r, k]
+        return st
+
+    def run_cp_als(eng, ops, st):
+        x = ops[0]
+        n = x.ndims
+        k = st["kind"]
+        if k == "rank":
+            return ttb.cp_als(x, 0, printitn=0, maxiters=1)
+        if k == "rank_negative":
+            return ttb.cp_als(x, -2, printitn=0, maxiters=1)
+        if k == "dimorder":
+            return ttb.cp_als(x, 1, dimorder=[0] * n, printitn=0, maxiters=1)
+        if k == "dimorder_short":
+            return ttb.cp_als(x, 1, dimorder=list(range(n - 1)), printitn=0, maxiters=1)
+        if k == "init_string":
+            return ttb.cp_als(x, 1, init="zeros", printitn=0, maxiters=1)
+        if k == "guess_shape":
+            return ttb.cp_als(x, ops[1].ncomponents, init=ops[1], printitn=0, maxiters=1)
+        return ttb.cp_als(x, ops[1].ncomponents + 1, init=ops[1], printitn=0, maxiters=1)
+
+    def bad_alg(ops, st):
+        if st["kind"] == "guess_shape":
+            return shp(ops[0]) != shp(ops[1])
+        return ops[0].ndims >= 2
+
+    bad("cp_als_options", ("T", "S"), lambda c, r: gen_alg(c, r, ["rank", "rank_negative", "dimorder", "dimorder_short", "init_string", "guess_shape", "guess_rank"]), run_cp_als, bad_alg)
+
+    def run_cp_apr(eng, ops, st):
+        x = ops[0]
+        k = st["kind"]
+        if k == "rank":
+            return ttb.cp_apr(x, 0, printitn=0, maxiters=1)
+        if k == "algorithm":
+            return ttb.cp_apr(x, 1, algorithm="newton", printitn=0, maxiters=1)
+        if k == "init_string":
+            return ttb.cp_apr(x, 1, init="ones", printitn=0, maxiters=1)
+        if k == "negative_data":
+            return ttb.cp_apr(x * -1.0 - 1.0 if isinstance(x, ttb.tensor) else (x * -1.0), 1, printitn=0, maxiters=1)
+        if k == "guess_shape":
+            return ttb.cp_apr(x, ops[1].ncomponents, init=ops[1], printitn=0, maxiters=1)
+        return ttb.cp_apr(x, ops[1].ncomponents + 1, init=ops[1], printitn=0, maxiters=1)
+
+    def bad_apr(ops, st):
+        if st["kind"] == "guess_shape":
+            return shp(ops[0]) != shp(ops[1])
+        if st["kind"] == "negative_data":
+            x = ops[0]
+            return isinstance(x, ttb.tensor) or (x.nnz > 0 and bool(np.any(x.vals > 0)))
+        return ops[0].ndims >= 2
+
+    bad("cp_apr_options", ("T", "S"), lambda c, r: gen_alg(c, r, ["rank", "algorithm", "init_string", "negative_data", "guess_shape", "guess_rank"]), run_cp_apr, bad_apr)
+
+    def gen_hosvd(c, r):
+        x = c.obj(r)
+        n = x.ndims
+        return {"operands": [r], "kind": c.g.choice(["ranks_short", "ranks_long", "dimorder"])}
+
+    def run_hosvd(eng, ops, st):
+        x = ops[0]
+        n = x.ndims
+        if st["kind"] == "ranks_short":
+            return ttb.hosvd(x, 0.1, verbosity=0, ranks=[1] * (n - 1))
+        if st["kind"] == "ranks_long":
+            return ttb.hosvd(x, 0.1, verbosity=0, ranks=[1] * (n + 1))
+        return ttb.hosvd(x, 0.1, verbosity=0, dimorder=[0] * n)
+
+    bad("hosvd_options", "T", gen_hosvd, run_hosvd, lambda ops, st: ops[0].ndims >= 2)
+
+    def gen_tucker(c, r):
+        x = c.obj(r)
+        if x.ndims < 2:
+            return None
+        kind = c.g.choice(["init_length", "init_shape", "dimorder", "init_string"])
+        st: Dict[str, Any] = {"operands": [r], "kind": kind, "ranks": [1] * x.ndims}
+        if kind in ("init_length", "init_shape"):
+            fs = [np.asfortranarray(rand_array(c.g, (s, 1))) for s in shp(x)]
+            if kind == "init_length":
+                fs = fs[:-1]
+            else:
+                fs[-1] = np.asfortranarray(rand_array(c.g, (shp(x)[-1] + 1, 1)))
+            st["operands"] = [r] + [c.fresh(f) for f in fs]
+        return st
+
+    def run_tucker(eng, ops, st):
+        x = ops[0]
+        n = x.ndims
+        k = st["kind"]
+        if k in ("init_length", "init_shape"):
+            return ttb.tucker_als(x, st["ranks"], init=list(ops[1:]), printitn=0, maxiters=1)
+        if k == "dimorder":
+            return ttb.tucker_als(x, st["ranks"], dimorder=[0] * n, printitn=0, maxiters=1)
+        return ttb.tucker_als(x, st["ranks"], init="ones", printitn=0, maxiters=1)
+
+    def bad_tucker(ops, st):
+        x = ops[0]
+        if st["kind"] == "init_length":
+            return len(ops) - 1 != x.ndims
+        if st["kind"] == "init_shape":
+            return len(ops) - 1 == x.ndims and ops[-1].shape[0] != shp(x)[-1]
+        return x.ndims >= 2
+
+    bad("tucker_als_options", "T", gen_tucker, run_tucker, bad_tucker)
+
+    def gen_gcp(c, r):
+        x = c.obj(r)
+        if x.ndims < 2:
+            return None
+        sparse = c.heap.kinds[r] == "S"
+        kinds = ["objective_tuple", "optimizer", "init_string"] + (["lbfgsb_sparse", "mask_sparse"] if sparse else ["mask_stochastic"])
+        return {"operands": [r], "kind": c.g.choice(kinds)}
+
+    def run_gcp(eng, ops, st):
+        from pyttb.gcp.handles import Objectives, gaussian, gaussian_grad
+        from pyttb.gcp.optimizers import LBFGSB, SGD
+
+        x = ops[0]
+        k = st["kind"]
+        sparse = isinstance(x, ttb.sptensor)
+        good = SGD(max_iters=1, epoch_iters=1, printitn=0) if sparse else LBFGSB(maxiter=1, iprint=-1)
+        if k == "objective_tuple":
+            return ttb.gcp_opt(x, 1, (gaussian, gaussian_grad), good, printitn=0)
+        if k == "optimizer":
+            return ttb.gcp_opt(x, 1, Objectives.GAUSSIAN, "lbfgsb", printitn=0)
+        if k == "init_string":
+            return ttb.gcp_opt(x, 1, Objectives.GAUSSIAN, good, init="zeros", printitn=0)
+        if k == "lbfgsb_sparse":
+            return ttb.gcp_opt(x, 1, Objectives.GAUSSIAN, LBFGSB(maxiter=1, iprint=-1), printitn=0)
+        if k == "mask_sparse":
+            return ttb.gcp_opt(x, 1, Objectives.GAUSSIAN, good, mask=ttb.tenones(x.shape), printitn=0)
+        return ttb.gcp_opt(x, 1, Objectives.GAUSSIAN, SGD(max_iters=1, epoch_iters=1, printitn=0), mask=ttb.tenones(x.shape), printitn=0)
+
+    def bad_gcp(ops, st):
+        sparse = isinstance(ops[0], ttb.sptensor)
+        if st["kind"] in ("lbfgsb_sparse", "mask_sparse"):
+            return sparse
+        if st["kind"] == "mask_stochastic":
+            return not sparse
+        return ops[0].ndims >= 2
+
+    bad("gcp_opt_options", ("T", "S"), gen_gcp, run_gcp, bad_gcp)
